@@ -409,3 +409,41 @@ const provPkg = modPath + "/pkg/provider"
 func (w *World) scopeHasCall(scope map[*ssa.Function]bool, match func(c ssa.CallInstruction) bool) bool {
 	return len(w.callsTo(scope, match)) > 0
 }
+
+// onlyAfterPass: call c happens only after the chain passed: it sits in the handler's suffix, or in a named module
+// function every call site of which (within the handler's scope) does, recursively. A function that is also used
+// as a value, or has no call site in scope, does not qualify.
+func (cx *Ctx) onlyAfterPass(ch *Chain, hscope map[*ssa.Function]bool, c ssa.CallInstruction, depth int) bool {
+	fn := c.Parent()
+	if fn == ch.Fn {
+		return ch.inSuffix(c)
+	}
+	if depth > 3 || fn.Parent() != nil {
+		return false
+	}
+	sites := cx.W.callsTo(hscope, func(x ssa.CallInstruction) bool { return calleeOf(x) == fn })
+	if len(sites) == 0 {
+		return false
+	}
+	for f := range hscope {
+		for _, b := range f.Blocks {
+			for _, in := range b.Instrs {
+				if ci, isCall := in.(ssa.CallInstruction); isCall && calleeOf(ci) == fn {
+					continue
+				}
+				var ops [12]*ssa.Value
+				for _, op := range in.Operands(ops[:0]) {
+					if op != nil && *op == ssa.Value(fn) {
+						return false // used as a value
+					}
+				}
+			}
+		}
+	}
+	for _, s := range sites {
+		if !cx.onlyAfterPass(ch, hscope, s, depth+1) {
+			return false
+		}
+	}
+	return true
+}
